@@ -266,6 +266,9 @@ class _Run:
         self.committed = {}
         self.locker = None
         self.stale = None
+        self.one_object = bool(inp.get("one_object"))
+        self.obj = None
+        self.mine = None
         self.pt = []
         init = inp.get("init")
         if init is not None:
@@ -279,6 +282,13 @@ class _Run:
         the run (a new one after every failed operation: a failure may leave a response unread);
         the locker keeps a connection of its own."""
         from breezy.branch import Branch
+        if self.one_object and not own_connection:
+            # ONE branch object for the whole run (client-side caches, attached VFS objects and an
+            # outer write lock survive from one operation to the next)
+            if self.obj is None:
+                self.obj = Branch.open(self.path) if self.mode == "local" else \
+                    Branch.open(_state["url"] + self.name, possible_transports=self.pt)
+            return self.obj
         if self.mode == "local":
             return Branch.open(self.path)
         pt = [] if own_connection else self.pt
@@ -288,6 +298,8 @@ class _Run:
         return br
 
     def close_all(self):
+        if self.one_object:
+            return                      # keep the object (and its lock) across failed operations
         for t in self.pt:
             try:
                 t.disconnect()
@@ -429,6 +441,20 @@ class _Run:
             repo.unlock()
         return Tag("ok")
 
+    def op_begin(self):
+        if self.mine is None:
+            br = self.open()
+            br.lock_write()
+            self.mine = br
+        return Tag("ok")
+
+    def op_end(self):
+        if self.mine is None:
+            return Tag("not-open")
+        br, self.mine = self.mine, None
+        br.unlock()
+        return Tag("ok")
+
     def op_unlock(self):
         if self.stale is not None:
             self._release_stale()
@@ -471,7 +497,7 @@ class _Run:
             return bool(t.get_file_text("f") == self._want_text(r))
 
     def op_genhist(self, r):
-        if self.mode == "oldsrv":
+        if self.mode == "oldsrv" and not self.one_object:
             # on a connection that has already learnt "server older than 1.6" the client skips its own
             # left-hand walk and an absent revision raises the other class: always ask on a new connection
             self.close_all()
@@ -527,6 +553,14 @@ class _Run:
                     self.close_all()
                 trace.append([res, self.disk()])
         finally:
+            if self.mine is not None:
+                try:
+                    self.mine.unlock()
+                except BaseException:
+                    pass
+            if self.obj is not None:
+                self.one_object = False
+                self._disconnect(self.obj)
             if self.stale is not None:
                 try:
                     self._release_stale()
@@ -624,6 +658,10 @@ def _coq_op(op):
         return f"(GenHist {a[0]})"
     if n == "stale_lock":
         return "StaleLock"
+    if n == "begin":
+        return "Begin"
+    if n == "end":
+        return "End"
     if n == "sign":
         return "(Sign [" + "; ".join(str(r) for r in a[0]) + "])"
     raise ValueError(op)
@@ -842,8 +880,19 @@ def _case(rng, g, fmt, nops, **kw):
         ops.insert(rng.randrange(len(ops)), ["stale_lock"])
     if rng.random() < 0.35:
         ops.insert(rng.randrange(len(ops) // 2, len(ops) + 1), ["sign", rng.sample(range(n), min(n, rng.randint(2, 3)))])
-    return {"fmt": fmt, "g": g, "init": init, "big": kw.get("big"), "oldsrv": bool(kw.get("oldsrv")),
-            "ops": ops}
+    one = bool(kw.get("one_object"))
+    if one:
+        # one object, one outer write lock spanning several operations: look up an id that does not exist
+        # yet, create it (commit through the VFS fallback), look it up again; fetch/pull/push then commit on top
+        ops = [o for o in ops if o[0] != "genhist"]
+        nxt = n + sum(1 for o in ops if o[0] == "commit")
+        b = rng.randrange(len(ops) + 1)
+        body = [["parent_map", [nxt, rng.randrange(n)]], rng.choice([["pull", rng.randrange(n), 1], ["push", rng.randrange(n), 1],
+                                                                     ["fetch", rng.randrange(n)]]),
+                ["commit"], ["parent_map", [nxt, nxt + 1]], ["revno", nxt], ["commit"], ["get_rev", nxt + 1], ["lri"]]
+        ops = ops[:b] + [["commit"]] * (rng.random() < 0.7) + [["begin"]] + body + [["end"]] * (rng.random() < 0.7) + ops[b:]
+    return {"fmt": fmt, "g": g, "init": init, "big": kw.get("big"), "oldsrv": bool(kw.get("oldsrv")) and not one,
+            "one_object": one, "ops": ops}
 
 
 def corpus():
@@ -868,6 +917,12 @@ def corpus():
         {"fmt": fmt, "g": g, "init": 4, "big": None, "oldsrv": True, "ops": [
             ["sign", [1, 2, 3]], ["sign", [4, 0]], ["sign", [2, 60, 1]], ["sign", []], ["pullfrom"], ["push", 6, 1],
             ["sign", [6, 5, 0]]]} for fmt in ("2a", "1.9", "dirstate-tags")] + [
+        # ONE branch object and one outer write lock over several operations (client caches, VFS fallback objects)
+    ] + [{"fmt": fmt, "g": g, "init": 2, "big": None, "oldsrv": False, "one_object": True, "ops": [
+        ["commit"], ["begin"], ["parent_map", [8, 2]], ["commit"], ["parent_map", [8, 7]], ["revno", 8], ["pull", 4, 1],
+        ["commit"], ["get_rev", 9], ["lock"], ["stale_lock"], ["set_tag", 1, 9], ["push", 6, 1], ["commit"], ["lri"],
+        ["fetch", 5], ["sign", [9, 10]], ["begin"], ["end"], ["end"], ["lock"], ["begin"], ["unlock"]]}
+        for fmt in ("2a", "dirstate-tags")] + [
         # one sequence touching every operation, every format
     ] + [{"fmt": fmt, "g": g, "init": None, "big": None, "ops": [
         ["push", 4, 0], ["lri"], ["revno", 3], ["revno", 1], ["revno", 4], ["set_conf", 3, 2, 1], ["set_conf", 2, 5, 1],
@@ -893,7 +948,7 @@ def cases(rng, tier):
     for k in range(nseq):
         g = dags[k % len(dags)] if quick else rng.choice(dags)
         fmt = FORMATS[k % len(FORMATS)] if rng.random() < 0.75 else "2a"
-        yield _case(rng, g, fmt, rng.randint(6, 10 if quick else 15), hpss_only=(k % 4 == 3), oldsrv=(k % 3 == 1))
+        yield _case(rng, g, fmt, rng.randint(6, 10 if quick else 15), hpss_only=(k % 4 == 3), oldsrv=(k % 3 == 1), one_object=(k % 3 == 2))
     # size thresholds: file texts above the medium / stream buffer sizes (64 KiB, 1 MiB)
     sizes = [[65536 - 3, 1100000]] if quick else [[70000], [65535, 65537], [1100000], [1048576 + 1, 300000]]
     for k, sz in enumerate(sizes):
